@@ -522,7 +522,9 @@ Section Model.
     match n with
     | Dir sdir =>
         match alookup id ws with
-        | None => copy_tree (o_exclude o) (o_dry_run o) id n ws     (* Project.clone: only user patterns can apply *)
+        | None =>
+            (* Project.clone: (with fix_excl) only the user patterns apply, never to the state point / document *)
+            copy_tree (fun k => o_exclude o k && negb (str_eqb k FN_SP || str_eqb k FN_DOC)) (o_dry_run o) id n ws
         | Some (Dir ddir) =>
             let '(d', e) := sync_jobs_m o (proj_deep o) true (Some sdir) (Some ddir) JNull in
             (match d' with Some x => aset id (Dir x) ws | None => ws end, e)
